@@ -282,7 +282,7 @@ void Executor::op_param(const Op& op, Obj& o) {
   bool any = op.geti("any", 0) != 0;   // any parameter (run without later solves) or only the ones that are safe to vary before a solve
   static const char* safeB[] = {"ensureray", "fullperturbation", "rowboundflips", "persistentscaling", "acceptcycling", "powerscaling", "ratfacjump", "forcebasic", "testdualinf", "eqtrans"};
   static const char* safeI[] = {"representation", "algorithm", "factor_update_type", "factor_update_max", "displayfreq", "simplifier", "scaler", "starter", "pricer", "ratiotester", "hyperpricing", "solution_polishing", "ratfac_minstalls", "leastsq_maxrounds", "printbasismetric", "stattimer", "timer"};
-  static const char* safeR[] = {"maxscaleincr", "sparsity_threshold", "representation_switch", "ratrec_freq", "minred", "refac_basis_nnz", "refac_update_fill", "refac_mem_factor", "leastsq_acrcy", "min_markowitz", "precision_boosting_factor", "liftminval", "liftmaxval"};
+  static const char* safeR[] = {"maxscaleincr", "sparsity_threshold", "representation_switch", "ratrec_freq", "minred", "refac_basis_nnz", "refac_update_fill", "refac_mem_factor", "min_markowitz", "precision_boosting_factor", "liftminval", "liftmaxval"};
   auto snapshot = [&](std::vector<bool>& b, std::vector<int>& i, std::vector<double>& d) { b.clear(); i.clear(); d.clear(); for (int p = 0; p < pi.nbool; p++) b.push_back(s.getBool(p)); for (int p = 0; p < pi.nint; p++) i.push_back(s.getInt(p)); for (int p = 0; p < pi.nreal; p++) d.push_back(s.getReal(p)); };
   auto same = [&](const std::vector<bool>& b, const std::vector<int>& i, const std::vector<double>& d) { for (int p = 0; p < pi.nbool; p++) if (b[p] != s.getBool(p)) return "bool:" + pi.bname[p]; for (int p = 0; p < pi.nint; p++) if (i[p] != s.getInt(p)) return "int:" + pi.iname[p]; for (int p = 0; p < pi.nreal; p++) if (memcmp(&d[p], &(const double&)s.getReal(p), 8) && !(std::isnan(d[p]) && std::isnan(s.getReal(p)))) return "real:" + pi.rname[p]; return std::string(); };
   count("param:" + kind);
